@@ -311,19 +311,29 @@ def is_lossless_map_err(term, body=None):
                 cb = prog.bodies.get(r[1].rv.j['closure'])
     if cb is None:
         return False
-    rs = roots_of(cb, Place({'l': 0, 'p': []}))
-    if not rs:
-        return False
-    for r in rs:
-        if r[0] == 'call' and r[1].callee and (r[1].callee.path in ('std::convert::From::from', 'std::convert::Into::into')) and r[1].args:
-            src = roots_of(cb, r[1].args[0])
-        elif r[0] == 'agg' and r[1].rv.j.get('variant') == 'Io' and r[1].rv.ops:
-            src = roots_of(cb, r[1].rv.ops[0])
-        else:
+    def converts(fb, param, depth=0):
+        """every value returned by fb is From::from / Into::into / Error::Io of its parameter `param` (possibly through
+        one private helper taking it: `|e| self.seek_failed(e)`)"""
+        rs = roots_of(fb, Place({'l': 0, 'p': []}))
+        if not rs:
             return False
-        if not (src and all(q[0] == 'arg' and q[1] == 2 and not q[-1] for q in src)):
-            return False
-    return True
+        for r in rs:
+            if r[0] == 'call' and r[1].callee and (r[1].callee.path in ('std::convert::From::from', 'std::convert::Into::into')) and r[1].args:
+                src = roots_of(fb, r[1].args[0])
+            elif r[0] == 'agg' and r[1].rv.j.get('variant') == 'Io' and r[1].rv.ops:
+                src = roots_of(fb, r[1].rv.ops[0])
+            elif r[0] == 'call' and depth < 2 and prog.local_callee_body(r[1].callee) is not None:
+                hb = prog.local_callee_body(r[1].callee)
+                idx = [i for i, a2 in enumerate(r[1].args) if (not a2.is_const) and all(q[0] == 'arg' and q[1] == param and not q[-1] for q in roots_of(fb, a2)) and roots_of(fb, a2)]
+                if len(idx) == 1 and converts(hb, idx[0] + 1, depth + 1):
+                    continue
+                return False
+            else:
+                return False
+            if not (src and all(q[0] == 'arg' and q[1] == param and not q[-1] for q in src)):
+                return False
+        return True
+    return converts(cb, 2)
 
 
 def forward_sinks(body, local, follow_refs=True, max_nodes=500, through=(), skip_variants=()):
@@ -482,6 +492,30 @@ def is_buffer_call(prog, callee, _cache={}):
         _cache[key] = buffer_accessors(prog)
     cb = prog.local_callee_body(callee)
     return cb is not None and cb.path in _cache[key]
+
+
+def consume_amount_is_opaque(prog, body, term, du=None):
+    """the amount handed to consume() is neither a stored buffer offset nor visibly the buffer length: it comes from a
+    cached field or a call result (e.g. `self.buf_len`): whether this consume re-bases or discards cannot be told"""
+    if not (term.callee and term.callee.is_('std::io::BufRead::consume') and len(term.args) == 2):
+        return False
+    rs = roots_of(body, term.args[1], du)
+    if not rs:
+        return True
+    for r in rs:
+        if r[0] == 'arg' and r[1] == 1:
+            names = [q[1] for q in r[-1]]
+            if names and names[0] in ('buf_pos', 'search_pos'):
+                return False
+            continue          # another field of self: a cached quantity
+        if r[0] == 'call':
+            if r[1].callee and r[1].callee.name in ('len', 'capacity'):
+                return False      # recognised: the buffer length (judged by is_discard_all) / the capacity (which is not the length)
+            continue
+        if r[0] == 'arg':
+            continue          # parameter of a helper: decided at its callers, not here
+        return False
+    return True
 
 
 def is_discard_all(prog, body, term, du=None):
